@@ -95,6 +95,11 @@ chk("C19", "recorded-history checker (M-GEN) around the real generate_problem: s
     "with different global-random state and equal callbacks (incl. z3 vs stand-in backend), exact accept/reject mapping of randint/choice/shuffle/random.",
     "symmetric disallow_adjacent offset lists only; chi-square part has a 1e-9 false-alarm budget", "DESIGN.md §3 C19")
 
+chk("C20", "one fresh interpreter per configuration observed through an audit hook, class-instantiation wrappers, stub extension modules and a fake sugar executable; oracle = decision table from the statement",
+    "~1.4*10^3 (thorough 4*10^4) sampled configurations over environment variables x importable modules x config assignments x per-call overrides x graph "
+    "function x acyclic: import probe order, config after import, backend class instantiated, external entry point invoked, native operators posted/emitted, ValueError for unknown names / malformed booleans.",
+    "module presence/absence simulated by a meta-path blocker and stubs", "DESIGN.md §3 C20")
+
 MANIFEST = dict(
     version=1,
     setup_cmd="./setup.sh",
